@@ -4,7 +4,7 @@ Neg(n) == 0 - n
 ExpsW == {Neg(6), Neg(1), 2, 5}
 ExpsWT == {Neg(6), Neg(3), Neg(1), 1, 2, 5}
 Factors == {"-2.5", "2^-33", "1024"}
-ShapesQ == {<<16>>, <<32>>, <<16, 24>>, <<8, 8, 12>>}
+ShapesQ == {<<12>>, <<16>>, <<32>>, <<16, 24>>, <<8, 8, 12>>}
 ShapesT == {<<16>>, <<32>>, <<64>>, <<16, 24>>, <<32, 32>>, <<20, 16>>, <<8, 8, 12>>, <<16, 16, 16>>}
 SpQ == {Neg(4), 0, 2, 6}
 SpT == (Neg(6))..6
